@@ -74,12 +74,28 @@ def generate(rng, tier):
         pf = rng.choice([0.0, 0.1, 0.3])       # probability of a failed acquisition
         first_fails = r0 >= 0.8 and rng.random() < 0.6
         fr, sp, sc, lv, rows, kinds, cmds = [], [], [], [], [], [], []
+        # skip commands are a HISTORY: before a step zero, one or two raw commands skip(name, on/off) are issued and
+        # stay in force until another command changes them (not only matched on/off pairs of the same name:
+        # skip(correction, on) ... skip(all, off) must leave nothing skipped).  Flags as the dispatch sets them
+        # (ParticleFilter::skip -> PFPrediction::skip / PFCorrection::skip -> StateModel::skip; proved in C13):
+        # P prediction step, S state model, C correction step.
+        P = S = C = 0
+        busy = rng.random() < 0.5            # half of the histories issue commands at ~35% of the steps, the others rarely
         for k in range(K):
             fr.append(0 if (rng.random() < pf or (k == 0 and first_fails)) else 1)
-            cm = rng.choice(["prediction", "state", "correction", "all"]) if rng.random() < 0.15 else "none"
-            cmds.append(cm)
-            sp.append(1 if cm in ("prediction", "state", "all") else 0)
-            sc.append(1 if cm in ("correction", "all") else 0)
+            toks = []
+            if rng.random() < (0.35 if busy else 0.08):
+                for _ in range(rng.choice([1, 1, 2])):
+                    name = rng.choice(["prediction", "state", "correction", "all"]); on = rng.random() < 0.55
+                    toks.append(name + ("+" if on else "-"))
+                    b = 1 if on else 0
+                    if name == "prediction": P = S = b
+                    elif name == "state": S = b; P = b   # PFPrediction::skip("state"): skip_ = state skipped & (no exogenous model | it is skipped); the harness attaches none
+                    elif name == "correction": C = b
+                    else: P = S = C = b
+            cmds.append(",".join(toks) if toks else "none")
+            sp.append(1 if (P or S) else 0)
+            sc.append(C)
             lv.append(0 if rng.random() < 0.1 else 1)
             kind = rng.choice(["ordinary", "ordinary", "vanishing", "dominant", "zero", "flat"])
             kinds.append(kind)
